@@ -204,28 +204,6 @@ theorem C18_has_system_after_add (b : DispatcherBuilder) (tag : SysTag) (name : 
         · have : (name == q) = false := by simpa using fun h => hq h.symm
           simp [lookup, this, hq, hn]
 
-/-- `num_systems` counts the accepted registrations under a non-empty name; `is_empty` says it is 0 -/
-theorem C18_num_systems_after_add (b : DispatcherBuilder) (tag : SysTag) (name : String) (dep : List String)
-    (d : Decl) :
-    (b.add tag name dep d).1.numSystems =
-      b.numSystems + (if (b.add tag name dep d).2 = none ∧ name ≠ "" then 1 else 0) := by
-  unfold add numSystems
-  simp only []
-  cases resolve b.map dep with
-  | error x => simp
-  | ok ids =>
-    simp only []
-    by_cases hn : name = ""
-    · subst hn; simp
-    · simp only [ne_eq, hn, not_false_eq_true, if_true]
-      by_cases hl : (lookup b.map name).isSome = true
-      · simp [hl]
-      · simp [hl]
-
-theorem C18_is_empty_iff (b : DispatcherBuilder) : b.isEmpty = true ↔ b.numSystems = 0 := by
-  unfold isEmpty numSystems
-  cases b.map <;> simp
-
 end DispatcherBuilder
 end Shred
 
@@ -330,5 +308,3 @@ end Shred
 #print axioms Shred.C18_group_capacity_any_builder
 #print axioms Shred.DispatcherBuilder.C18_queries_predict_add
 #print axioms Shred.DispatcherBuilder.C18_has_system_after_add
-#print axioms Shred.DispatcherBuilder.C18_num_systems_after_add
-#print axioms Shred.DispatcherBuilder.C18_is_empty_iff
